@@ -26,7 +26,7 @@ PROP = "C15"
 RULE = (
     "project variants {black-clean files, unclean files, format-command (cat: a subprocess formatter that changes nothing)} x flag sets {create,fix,trim,update / create,fix}: 2 test files with 3 outsourced externals, "
     "pending create/fix/trim/update changes and one HasRepr value needing an import; fault space = every boundary of the recorded session-end trace (quick: every distinct boundary "
-    "name x position class first/middle/last occurrence; thorough: every index) x {raise, kill}, plus 3 black faults x call index and 3 format-command faults; case = one faulted session; "
+    "name x position class first/middle/last occurrence; thorough: every index) x {raise, kill}, plus 3 black faults x call index and 6 format-command faults; case = one faulted session; "
     "non-trivial = the fault was actually injected (inject event in the audit log / formatter fault observed); distinct = (boundary name, position class, fault kind, variant)."
 )
 ASSUMPTIONS = [
@@ -177,7 +177,7 @@ def run_shard(args):
                 for idx in (None, 1, 3):
                     jobs.append((vname, fargs, files, expected_new, None, "black:" + bk + (f"@{idx}" if idx else ""), "fmt", ("black", bk, idx)))
         else:
-            for cmdk, cmd in (("nonzero", "exit 3"), ("garbage", "echo 'GARBAGE((( not python'"), ("empty", "true"), ("stderr-nonzero", "echo oops >&2; exit 1")):
+            for cmdk, cmd in (("nonzero", "exit 3"), ("garbage", "echo 'GARBAGE((( not python'"), ("empty", "true"), ("stderr-nonzero", "echo oops >&2; exit 1"), ("truncated-nonzero", "head -n 14; exit 1"), ("complete-nonzero", "cat; exit 2")):
                 jobs.append((vname, fargs, files, expected_new, None, "format-command:" + cmdk, "fmt", ("cmd", cmd, None)))
     # in quick mode spread the jobs of the (shard % 3) variant over the shards that share it
     if tier == "quick":
@@ -231,6 +231,20 @@ def run_shard(args):
             elif "Problems" not in r.stdout:
                 out["violations"].append({"kind": "formatter-failure-not-reported-as-problem", "detail": {**base, "stdout_tail": r.stdout[-500:]}, "witness": wit, "finding": None})
             else:
+                # a formatter only changes layout: whatever it did, the code on disk is the fault-free new code
+                for name, want in expected_new.items():
+                    if not name.endswith(".py") or name not in r.after:
+                        continue
+                    C["formatter_fault_ast_checks"] = C.get("formatter_fault_ast_checks", 0) + 1
+                    try:
+                        same = ast.dump(ast.parse(r.after[name])) == ast.dump(ast.parse(want))
+                    except SyntaxError:
+                        same = False
+                    if not same and r.after[name] != files[name].encode():
+                        import difflib
+
+                        d = "\n".join(difflib.unified_diff(want.decode().splitlines(), r.after[name].decode("utf-8", "replace").splitlines(), "fault-free", "on-disk", lineterm="", n=0))
+                        out["violations"].append({"kind": "code-after-formatter-failure-differs-from-fault-free-code", "detail": {**base, "file": name, "diff": d[:1200]}, "witness": wit, "finding": None})
                 # still correct: a disabled session over the result passes the created/fixed tests
                 r2 = session.run_session(proj, ["--inline-snapshot=disable", "-k", "create or fix or ext or hasrepr"])
                 C["sessions"] += 1
@@ -262,5 +276,5 @@ def main(tier, seed):
     inj, miss = out.counters.get("faults_injected", 0), out.counters.get("faults_not_reached", 0)
     if miss > 0.2 * max(1, inj + miss):
         out.inconclusive.append(f"{miss} of {inj + miss} planned faults were never reached (non-deterministic boundary trace)")
-    out.extra["fault_space"] = "boundary index x {raise, kill} over the recorded session-end trace of each project variant + 9 black faults + 4 format-command faults; quick enumerates every distinct boundary name x {first, middle, last occurrence}, thorough every index"
+    out.extra["fault_space"] = "boundary index x {raise, kill} over the recorded session-end trace of each project variant + 9 black faults + 6 format-command faults; quick enumerates every distinct boundary name x {first, middle, last occurrence}, thorough every index"
     return common.finish(out, RULE, ASSUMPTIONS, min_evals=40, min_distinct=30, required_counters=("boundaries_recorded", "faults_injected", "files_classified", "references_checked", "trace_shape_checked", "formatter_faults", "stack_probes"))
